@@ -66,7 +66,7 @@ def gen_cases(rng: random.Random, n: int, styles, kinds=None):
     from .props import c08
     out = []
     for k in range(n):
-        pool = list(kinds) if kinds else ["mask", "nonzero", "setitem", "setitem", "setitem_mask", "intindex", "cumsum"]
+        pool = list(kinds) if kinds else ["mask", "nonzero", "setitem", "setitem", "setitem_mask", "intindex", "cumsum", "where"]
         kind = pool[k % len(pool)]
         rank = rng.choice([1, 1, 2, 2, 3])
         shape = tuple(rng.choice([1, 2, 3, 4]) for _ in range(rank))
@@ -115,6 +115,28 @@ def gen_cases(rng: random.Random, n: int, styles, kinds=None):
                             {"y": f"tg_render cumsum {CODE[dt]} {axis} {CODE[acc] if acc else '~'}"},
                             ref, (concrete, shape, style)))
             out[-1].loose = incl        # include_initial: the model term covers the running sum only; acceptance and values are compared
+        elif kind == "where":
+            # three-way broadcasting: every operand gets the trailing part of a common shape with some extents set to 1
+            def part(sh):
+                k = rng.randrange(0, len(sh) + 1)
+                return tuple((1 if rng.random() < 0.35 else d) for d in sh[len(sh) - k:])
+            shp = [part(shape) for _ in range(3)]
+            dd = [decl_dims(style, s_, "W%d" % j) if style == "static" else tuple(None for _ in s_) for j, s_ in enumerate(shp)]
+            def build(dd=dd, dtype=dtype):
+                c = ndx.array(shape=dd[0], dtype=ndx.bool); a = ndx.array(shape=dd[1], dtype=impl.dt(dtype)); b = ndx.array(shape=dd[2], dtype=impl.dt(dtype))
+                return {"c": c, "a": a, "b": b}, {"y": ndx.where(c, a, b)}
+            def ref(feeds):
+                return {"y": np.where(feeds["c"], feeds["a"], feeds["b"])}
+            def concrete(rng, sh, shp=shp, dtype=dtype):
+                def ext(dt, s_):
+                    if dt == "bool":
+                        return _data(rng, s_, "bool")
+                    info = np.iinfo(np.dtype(dt))
+                    vals = [rng.choice([0, 1, 2, -1, 5, int(info.max), int(info.min)]) for _ in range(int(np.prod(s_)))]
+                    return np.array([min(int(info.max), max(int(info.min), v)) for v in vals], dtype=dt).reshape(s_)
+                return {"c": _data(rng, shp[0], "bool"), "a": ext(dtype, shp[1]), "b": ext(dtype, shp[2])}
+            out.append(Case(kind, (kind, tuple(shp), style, dtype), ["c", "a", "b"], build,
+                            {"y": f"tg_render where {CODE[dtype]}"}, ref, (concrete, shape, "static")))
         elif kind == "intindex":
             idt = rng.choice(INT_DTYPES[:-1])
             ishape = rng.choice([(), (0,), (1,), (3,), (2, 2)])
